@@ -461,13 +461,17 @@ func (a *natsKeyValueAdapter) Watch(key string, opts ...interface{}) (Watcher, e
 	if err != nil {
 		return nil, err
 	}
-	return &natsWatcherAdapter{watcher: natsWatcher}, nil
+	return &natsWatcherAdapter{watcher: natsWatcher, done: make(chan struct{})}, nil
 }
 
 type natsWatcherAdapter struct {
 	watcher   nats.KeyWatcher
 	once      sync.Once
 	entryChan chan Entry
+	// done is closed by Stop: it releases the forwarding goroutine when the
+	// consumer has stopped reading entryChan.
+	done     chan struct{}
+	stopOnce sync.Once
 }
 
 // Updates returns the channel on which entries are delivered. The channel and
@@ -480,10 +484,16 @@ func (a *natsWatcherAdapter) Updates() <-chan Entry {
 		go func() {
 			defer close(entryChan)
 			for natsEntry := range a.watcher.Updates() {
+				var entry Entry
 				if natsEntry != nil {
-					entryChan <- &natsEntryAdapter{entry: natsEntry}
-				} else {
-					entryChan <- nil
+					entry = &natsEntryAdapter{entry: natsEntry}
+				}
+				// Every entry is delivered (blocking send) for as long as the
+				// watcher runs; after Stop nobody may be reading any more.
+				select {
+				case entryChan <- entry:
+				case <-a.done:
+					return
 				}
 			}
 		}()
@@ -492,6 +502,7 @@ func (a *natsWatcherAdapter) Updates() <-chan Entry {
 }
 
 func (a *natsWatcherAdapter) Stop() {
+	a.stopOnce.Do(func() { close(a.done) })
 	_ = a.watcher.Stop()
 }
 
